@@ -66,7 +66,7 @@ theorem C17_unknown_task_rejected (body : Dict) (t : Val) (ht : lookup Gen.comms
   have hs : Gen.launcherTaskSubject = Gen.comms_task_key := by decide
   simp only [call, hs, ht, dispatch_unknown t h1 h2 h3]
 
-example : call ⟨some .pickle, none⟩ ⟨fun _ _ => some "C", fun _ c => c⟩ ⟨fun _ _ => .ok (), fun _ => .outputs []⟩ ⟨[], 0⟩
+example : call ⟨some .pickle, none, none⟩ ⟨fun _ _ => some "C", fun _ c => c⟩ ⟨fun _ _ => .ok (), fun _ => .outputs []⟩ ⟨[], 0⟩
     [(Gen.comms_task_key, .str "kill"), (Gen.comms_task_args, .dict [(Gen.comms_process_class_key, .str "m:C"),
       (Gen.comms_persist_key, .bool true), (Gen.comms_nowait_key, .bool false)])] = Step.reject ⟨[], 0⟩ := by
   apply C17_unknown_task_rejected (t := .str "kill") <;> first | rfl | (intro h; injection h with h; exact absurd h (by decide))
@@ -98,7 +98,7 @@ theorem C17_bodies_without_persister_rejected (hn : cfg.persister = none) (ident
     C17_create_persist_without_persister_rejected cfg L R s _ rfl hn,
     C17_continue_without_persister_rejected cfg L R s _ hn⟩
 
-example : (call ⟨none, some .custom⟩ ⟨fun _ _ => some "C", fun _ c => c⟩ ⟨fun _ _ => .ok (), fun _ => .outputs []⟩ ⟨[], 3⟩
+example : (call ⟨none, some .custom, none⟩ ⟨fun _ _ => some "C", fun _ c => c⟩ ⟨fun _ _ => .ok (), fun _ => .outputs []⟩ ⟨[], 3⟩
     (continueBody 1 (some "t") true)).reply = .rejected := rfl
 
 /-- **a task that is not honoured does nothing else instead**: whenever the reply is `TaskRejected` or an exception
@@ -163,7 +163,7 @@ theorem C17_create_does_not_run (a : CreateArgs) :
           | some k => exact hq ⟨hpp, by simp [hcp]⟩
       simp [this]
 
-example : (create ⟨some .pickle, none⟩ ⟨fun _ _ => some "C", fun _ c => c⟩ ⟨fun _ _ => .ok (), fun _ => .outputs []⟩ ⟨[], 3⟩
+example : (create ⟨some .pickle, none, none⟩ ⟨fun _ _ => some "C", fun _ c => c⟩ ⟨fun _ _ => .ok (), fun _ => .outputs []⟩ ⟨[], 3⟩
     ⟨.str "m:C", true, (.none, .none)⟩).reply = .pid 3 := rfl
 
 /-! ## launch -/
@@ -203,7 +203,7 @@ theorem C17_launch_persists_first (a : LaunchArgs) (ident : Ident) (cls : ClassI
     have hq : ¬ (a.persist = true ∧ cfg.persister ≠ none) := by simp [hp]
     cases hw : a.nowait <;> simp [launch, hb, hc, hi, persistIfAsked_no cfg L _ _ _ hq, finish, hw]
 
-example : ((launch ⟨some (.mem none), none⟩ ⟨fun _ _ => some "C", fun _ c => c⟩ ⟨fun _ _ => .ok (), fun _ => .outputs [("v", 1)]⟩
+example : ((launch ⟨some (.mem none), none, none⟩ ⟨fun _ _ => some "C", fun _ c => c⟩ ⟨fun _ _ => .ok (), fun _ => .outputs [("v", 1)]⟩
     ⟨[], 0⟩ ⟨.str "m:C", true, false, (.none, .none)⟩).st.pers.get (0, none)).map (·.pos) = some 0 := rfl
 
 /-! ## continue -/
@@ -263,7 +263,7 @@ theorem C17_continue_resumes_requested_pid (hinv : Inv s) (pid : Pid) (tag : Tag
     (hg : s.pers.get (pid, tag) = some c) (cls : ClassId) : (recreate c cls).pid = pid :=
   (hinv (pid, tag) c (Store.mem_of_get hg)).1
 
-example : (continue_ ⟨some .pickle, none⟩ ⟨fun _ _ => some "C", fun _ c => c⟩ ⟨fun _ _ => .ok (), fun p => .outputs [("pos", p.pos)]⟩
+example : (continue_ ⟨some .pickle, none, none⟩ ⟨fun _ _ => some "C", fun _ c => c⟩ ⟨fun _ _ => .ok (), fun p => .outputs [("pos", p.pos)]⟩
     ⟨[((7, some "b"), ⟨"m:C", none, 7, "C", (.none, .none), 2⟩), ((7, some "a"), ⟨"m:C", none, 7, "C", (.none, .none), 1⟩)], 8⟩
     ⟨.pid 7, false, .str "b"⟩).reply = .outputs [("pos", 2)] := rfl
 
@@ -295,8 +295,8 @@ theorem C17_nowait_returns_pid :
 
 /-- **otherwise the reply is the process's outputs or its error**: a launch or continue task without `nowait` that gets
 as far as having a process has run it to completion before replying (the run is the last effect, nothing is left for
-afterwards) and replies what the process ended with — its outputs, or the exception it ended with — and never a pid
-or a rejection. -/
+afterwards) and replies what the process ended with — its outputs, the exception it ended with, or `KilledError`
+when it was killed meanwhile (never the outputs emitted before the kill) — and never a pid or a rejection. -/
 theorem C17_reply_is_outputs_or_error :
     (∀ (a : LaunchArgs) ident cls, a.nowait = false → ¬ (a.persist = true ∧ cfg.persister = none) →
       a.processClass = .str ident → L.load cfg.launchLoader ident = some cls → R.construct cls a.init = .ok () →
@@ -306,7 +306,8 @@ theorem C17_reply_is_outputs_or_error :
       s.pers.get k = some c → L.load (loadLoader cfg c) c.ident = some cls →
       (continue_ cfg L R s a).reply = replyOf (R.complete (recreate c cls)) ∧ (continue_ cfg L R s a).later = [] ∧
         ranProcs (continue_ cfg L R s a).now = [recreate c cls]) ∧
-    (∀ o, (∃ out, replyOf o = .outputs out ∧ o = .outputs out) ∨ (∃ e, replyOf o = .error (.proc e) ∧ o = .raised e)) := by
+    (∀ o, (∃ out, replyOf o = .outputs out ∧ o = .outputs out) ∨ (∃ e, replyOf o = .error (.proc e) ∧ o = .raised e) ∨
+      (replyOf o = .error .killed ∧ o = .killed)) := by
   refine ⟨?_, ?_, ?_⟩
   · intro a ident cls hw hh hc hl hcons
     have hi := instantiate_ok cfg L R s (init := a.init) hl hcons
@@ -321,9 +322,10 @@ theorem C17_reply_is_outputs_or_error :
   · intro o
     cases o with
     | outputs out => left; exact ⟨out, rfl, rfl⟩
-    | raised e => right; exact ⟨e, rfl, rfl⟩
+    | raised e => right; left; exact ⟨e, rfl, rfl⟩
+    | killed => right; right; exact ⟨rfl, rfl⟩
 
-example : (launch ⟨none, none⟩ ⟨fun _ _ => some "C", fun _ c => c⟩ ⟨fun _ _ => .ok (), fun _ => .raised "ValueError"⟩ ⟨[], 0⟩
+example : (launch ⟨none, none, none⟩ ⟨fun _ _ => some "C", fun _ c => c⟩ ⟨fun _ _ => .ok (), fun _ => .raised "ValueError"⟩ ⟨[], 0⟩
     ⟨.str "m:C", false, false, (.none, .none)⟩).reply = .error (.proc "ValueError") := rfl
 
 /-! ## the loader -/
@@ -331,7 +333,8 @@ example : (launch ⟨none, none⟩ ⟨fun _ _ => some "C", fun _ c => c⟩ ⟨fu
 /-- **the configured object loader is the one used**: when the launcher was given a loader `l`, every class
 resolution of every task — the class to construct (launch, create) and the class to recreate a checkpoint as
 (continue) — is made by `l` and yields what `l` says; every process constructed or recreated has the class `l`
-resolved.  Without a configured loader, launch and create use the global default loader. -/
+resolved — also when the launcher was given a load context of its own, with or without a loader in it.  Without a
+configured loader, launch and create use the global default loader and continue follows `loadLoader`. -/
 theorem C17_configured_loader_used (body : Dict) :
     (∀ l, cfg.loader = some l → ∀ r ∈ resolutionsOf ((call cfg L R s body).now ++ (call cfg L R s body).later),
       r.1 = l ∧ r.2.2 = L.load l r.2.1) ∧
@@ -387,17 +390,29 @@ theorem C17_configured_loader_used (body : Dict) :
   refine ⟨fun l hl r hr => ?_, hk.1, hk.2⟩
   obtain ⟨h1, h2⟩ := hk.1 r hr
   have hcfg : cfg.launchLoader = l := by simp [Config.launchLoader, hl]
-  have hload : ∀ c, loadLoader cfg c = l := by intro c; simp [loadLoader, hl]
+  have hload : ∀ c, loadLoader cfg c = l := by intro c; simp [loadLoader, Config.contextLoader, hl]
   have : r.1 = l := by
     rcases h2 with h | ⟨kc, _, h, _⟩
     · rw [h, hcfg]
     · rw [h, hload]
   exact ⟨this, by rw [h1, this]⟩
 
-example : (launch ⟨none, some .custom⟩
-    ⟨fun k i => match k with | .custom => (if i = "jimmy" then some "Proc" else none) | .default => none, fun _ c => c⟩
+example : (launch ⟨none, some .custom, none⟩
+    ⟨fun k i => match k with | .custom => (if i = "jimmy" then some "Proc" else none) | _ => none, fun _ c => c⟩
     ⟨fun _ _ => .ok (), fun p => .outputs [(p.cls, 1)]⟩ ⟨[], 0⟩
     ⟨.str "jimmy", false, false, (.none, .none)⟩).reply = .outputs [("Proc", 1)] := rfl
+
+/-- the caller's load context carries the default loader, the launcher is given a custom one: a continue task resolves
+the class with the custom one -/
+example : (continue_ ⟨some .pickle, some .custom, some .default⟩
+    ⟨fun k i => match k with | .custom => (if i = "m:C" then some "Swapped" else none) | _ => some "C", fun _ c => c⟩
+    ⟨fun _ _ => .ok (), fun p => .outputs [(p.cls, 1)]⟩
+    ⟨[((0, none), ⟨"m:C", none, 0, "C", (.none, .none), 0⟩)], 1⟩
+    ⟨.pid 0, false, .none⟩).reply = .outputs [("Swapped", 1)] := rfl
+
+/-- a process that is killed while the launcher awaits it: the reply is its `KilledError`, not its partial outputs -/
+example : (launch ⟨none, none, none⟩ ⟨fun _ _ => some "C", fun _ c => c⟩ ⟨fun _ _ => .ok (), fun _ => .killed⟩ ⟨[], 0⟩
+    ⟨.str "m:C", false, false, (.none, .none)⟩).reply = .error .killed := rfl
 
 /-! ## histories -/
 
